@@ -1,6 +1,7 @@
 import Exetera.Props.C05
 import Exetera.Props.C10.Basic
 import Exetera.Model.KernelSitesCsv
+import Exetera.Model.KernelPathsCsv
 /-!
 # C10 — `fast_csv_reader` and its window driver (owning property: C05)
 
@@ -15,6 +16,14 @@ namespace Exetera.Props.C10
 open Exetera Exetera.Csv Exetera.Csv.Spec
 
 theorem access_sites_covered_csv : ∀ k ∈ KernelSites.csvSites, lookup k.1 = some k := by decide +kernel
+
+/-- the PATH CONDITION of every subscript occurrence in these kernels (enclosing loop guards, `if` / `elif` tests, negated
+    `else` branches and early exits), as regenerated from the current source (`Gen/KernelPaths.lean`), is exactly the one the
+    model was written against (`Model/KernelPathsCsv.lean`): dropping or changing a test that dominates a subscript breaks
+    the build; and the table covers exactly the kernels of the site table -/
+theorem access_paths_covered_csv :
+    (∀ k ∈ KernelPaths.csvPaths, lookupPaths k.1 = some k) ∧
+    KernelPaths.csvPaths.map (·.1) = KernelSites.csvSites.map (·.1) := by decide +kernel
 
 example : KernelSites.csvSites.length = 1 := by decide
 
